@@ -538,6 +538,38 @@ def r12_skips_mixes_and_refused_maps(idx, r):
                   msg=f"the handler swallows the refusal but keeps `{mp}`: the partially drawn map is then written as the lattice map and the explicit grid contents are dropped - the file reads back to other contents")
 
 
+def r13_zero_valued_modifications(idx, r):
+    """Material modifications reach the materials as keyword arguments of applyInputParams, absent ones as None.  Zero is a legitimate
+    fraction (0 % enrichment, no class-1 feed): an optional argument is compared with None, never evaluated for truth - the same rule the
+    blueprint side obeys (R18.5)."""
+    from ..astutil import optional_params
+    n = 0
+    for m in idx.modules.values():
+        if not m.name.startswith("armi.materials") or ".tests" in m.name:
+            continue
+        for f in m.all_funcs():
+            if f.name != "applyInputParams" or f.cls is None:
+                continue
+            opt = set(optional_params(f.node))
+            if not opt:
+                continue
+            n += 1
+            bad = []
+            for x in ast.walk(f.node):
+                tests = []
+                if isinstance(x, (ast.If, ast.IfExp, ast.While)):
+                    tests.append(x.test)
+                elif isinstance(x, ast.BoolOp):
+                    tests.extend(x.values)
+                elif isinstance(x, ast.UnaryOp) and isinstance(x.op, ast.Not):
+                    tests.append(x.operand)
+                bad += [t for t in tests if isinstance(t, ast.Name) and t.id in opt]
+            r.require(not bad, f"{f.cls.name}.applyInputParams:optional-arguments-compared-with-None", f, node=bad[0] if bad else None,
+                      msg=f"`{bad[0].id if bad else ''}` is evaluated for truth: a modification of exactly 0 (0.0 weight fraction) is ignored and the library default composition is built instead of the one the blueprint asks for")
+    if n < 5:
+        raise AnalysisError(f"only {n} applyInputParams with optional arguments found")
+
+
 def run(idx, chk):
     chk.explanation = (
         "C18 is a relation between an input document and an object graph; static analysis claims only: (1) each lattice-map class reads and "
@@ -572,3 +604,5 @@ def run(idx, chk):
                  necessary="the built component has the composition (mass) the blueprint text specifies")
     chk.run_rule("R18.12", "expansion exemption by flag subset; isotopic blends cover every nuclide of the material; a refused map is discarded", lambda r: r12_skips_mixes_and_refused_maps(idx, r), floor=3,
                  necessary="block heights and compositions are those of the blueprint text; indexed contents are drawn as text that reads back to them or not at all")
+    chk.run_rule("R18.13", "material modifications of value zero are applied: optional applyInputParams arguments are compared with None", lambda r: r13_zero_valued_modifications(idx, r), floor=5,
+                 necessary="the built composition is the one the requested material modifications specify")
